@@ -124,6 +124,15 @@ func init() {
 		return B(c08Blank(out, idx+88, 24+c08NtLen(ctx.NTLMChallenge.NegotiateFlags, ctx.NTLMChallenge.TargetInfo)))
 	})
 
+	Impl("spnego.create_negotiate_token", func(a []Val) Val {
+		ctx := spnego.NewAuthContext(spnego.AuthTypeNTLM, a[0].Str(), "user", "password", a[1].Str(), a[2].Int() != 0)
+		out, err := ctx.CreateNegotiateToken()
+		if err != nil {
+			return VErr()
+		}
+		return B(out)
+	})
+
 	// ---- ntlm ----
 	Impl("ntlm.create_negotiate", func(a []Val) Val {
 		out, err := ntlm.CreateNegotiateMessage(a[0].Str(), a[1].Str(), a[2].Int() != 0)
